@@ -184,6 +184,11 @@ extern int mpt_graph_set(MPT_STRUCT(graph) *gr, const char *name, MPT_INTERFACE(
 			gr->grid = def_graph.grid;
 			return 0;
 		}
+		/* no character: the number the property is read as */
+		if (len < 0 && !(len = src->_vptr->convert(src, 'y', &gr->grid))) {
+			gr->grid = def_graph.grid;
+			return 0;
+		}
 		return len < 0 ? len : 0;
 	}
 	if (!strcmp(name, "align") || !strcasecmp(name, "alignment")) {
